@@ -1,6 +1,6 @@
 (* C06 — mapping a fragment graph onto more or fewer processors keeps its result (statements follow) *)
 From Coq Require Import List.
 Import ListNotations.
-Lemma c06_placeholder : forall (A : Type) (l : list A), l ++ [] = l.
+Fact c06_placeholder : forall (A : Type) (l : list A), l ++ [] = l.
 Proof. intros. apply app_nil_r. Qed.
 Print Assumptions c06_placeholder.
